@@ -37,6 +37,15 @@ def evalT (fn : String) (args : List String) (impl : String) : Option Verdict :=
     some { model := impl,
            propFails := if impl.startsWith "panic" then
              [s!"C07 the gtp5g driver faulted on a damaged {args.headD "?"} IE ({(args.getD 2 "").length / 2} octets); in the event loop this takes the UPF down"] else [] }
+  | "tmoburst" =>
+    -- real timers: n unanswered Session Report Requests whose timers all expire while the loop is held in a data-plane call
+    let num (k : String) : Nat := (args.findSome? fun a => if a.startsWith (k ++ "=") then ((a.drop (k.length + 1)).toString).toNat? else none).getD 0
+    let n := num "n"
+    let r := num "maxretrans"
+    let want := s!"tx=0 sent={n * (1 + r)} distinct={n}"
+    some { model := want,
+           propFails := if impl == want then [] else
+             [s!"C09 {n} unanswered Session Report Requests, retry count {r}, all timers expiring while the event loop was busy: afterwards '{impl}'; each request is due exactly {1 + r} transmission(s) and must then be abandoned ('{want}')"] }
   | "proc.died" =>
     -- the process running the real code was brought down by a fault in one of the implementation's own goroutines, outside
     -- every guard, while (or right after) it was handed this input: in the UPF that is the end of the process
